@@ -120,6 +120,15 @@ func (avp attributeValueParser) Parse(pi *parse.Input) (value string, ok bool, e
 	return value, true, nil
 }
 
+// slashBeforeTagEnd matches the slash of "/>".
+var slashBeforeTagEnd = parse.Func(func(pi *parse.Input) (s string, ok bool, err error) {
+	if next, ok := pi.Peek(2); !ok || next != "/>" {
+		return "", false, nil
+	}
+	s, ok = pi.Take(1)
+	return s, ok, nil
+})
+
 // Constant attribute.
 var (
 	attributeValueParsers = []attributeValueParser{
@@ -130,7 +139,8 @@ var (
 		// Unquoted.
 		// A valid unquoted attribute value in HTML is any string of text that is not an empty string,
 		// and that doesn’t contain spaces, tabs, line feeds, form feeds, carriage returns, ", ', `, =, <, or >.
-		{EqualsAndQuote: parse.String("="), Suffix: parse.Any(parse.RuneIn(" \t\n\r\"'`=<>/"), parse.EOF[string]()), UseSingleQuote: false},
+		// A slash is part of the value (href=/path, src=a/b.png) unless it closes the tag.
+		{EqualsAndQuote: parse.String("="), Suffix: parse.Any(parse.RuneIn(" \t\n\r\"'`=<>"), slashBeforeTagEnd, parse.EOF[string]()), UseSingleQuote: false},
 	}
 	constantAttributeParser = parse.Func(func(pi *parse.Input) (attr ConstantAttribute, ok bool, err error) {
 		start := pi.Index()
